@@ -87,9 +87,18 @@ def _fixture_c():
         empty.metadata = sec
         mt.metadata = sub
         grp.metadata = other
+        fr = blk.create_data_frame("fr", "t", col_names=["c", "d"], col_dtypes=[int, float], data=[(1, 0.5), (2, 1.5)])
+        fr.metadata = sub
+        tag.create_feature(fr, nixio.LinkType.Indexed)     # a frame as feature data
+        grp.data_frames.append(fr)
         for k, v in (("blk", blk), ("a1", a1), ("a2", a2), ("tag", tag), ("mt", mt), ("grp", grp),
-                     ("s", s), ("s1", s1), ("s2", s2), ("empty", empty)):
+                     ("s", s), ("s1", s1), ("s2", s2), ("empty", empty), ("fr", fr)):
             E[bn + "." + k] = v
+    # links that cross block borders (single links and dimension links are not restricted to the block)
+    mtx = E["b2.blk"].create_multi_tag("mtx", "t", positions=E["b1.a1"])
+    mtx.extents = E["b1.a2"]
+    E["b2.a2"].append_range_dimension([1.0, 2.0]).link_data_array(E["b1.a1"], [-1])
+    E["b1.a2"].append_range_dimension([1.0, 2.0]).link_data_array(E["b1.a1"], [-1])
     bare = f.create_block("bare", "t")                 # a block without any content, only a metadata link
     bare.metadata = other
     E["bare"] = bare
@@ -97,6 +106,13 @@ def _fixture_c():
 
 
 def _picture(f):
+    # the picture is taken of concrete state (the choice of what to delete has been made):
+    # the walk runs with the tracer suspended
+    with untraced():
+        return _picture_c(f)
+
+
+def _picture_c(f):
     """API-level picture of the whole file: every container, list and link (by id)"""
     def md(e):
         try:
@@ -122,8 +138,19 @@ def _picture(f):
         bd = {"id": b.id, "name": b.name, "md": md(b), "sources": srcs(b.sources), "arrays": [], "tags": [],
               "mtags": [], "groups": []}
         for a in b.data_arrays:
+            links = []
+            for dm in a.dimensions:
+                if getattr(dm, "has_link", False):
+                    try:
+                        links.append(dm.dimension_link.linked_data.id)
+                    except Exception:  # noqa  the target of the link is gone
+                        links.append("NOTARGET")
             bd["arrays"].append({"id": a.id, "name": a.name, "md": md(a), "sources": ids(a.sources),
-                                 "ndim": len(a.dimensions), "data": [float(x) for x in a[:]]})
+                                 "ndim": len(a.dimensions), "dimlinks": links, "data": [float(x) for x in a[:]]})
+        bd["frames"] = []
+        for d in b.data_frames:
+            bd["frames"].append({"id": d.id, "name": d.name, "md": md(d),
+                                 "rows": [tuple(float(x) for x in r) for r in d[:]]})
         for t in b.tags:
             feats = []
             for ft in t.features:
@@ -146,6 +173,7 @@ def _picture(f):
                                 "refs": ids(m.references)})
         for g in b.groups:
             bd["groups"].append({"id": g.id, "name": g.name, "md": md(g), "das": ids(g.data_arrays), "tags": ids(g.tags),
+                                 "frames": ids(g.data_frames),
                                  "mtags": ids(g.multi_tags), "sources": ids(g.sources)})
         pic["blocks"].append(bd)
     return pic
@@ -168,8 +196,11 @@ def _strip(pic, dead):
         if b["id"] in dead:
             continue
         nb = dict(b, md=None if b["md"] in dead else b["md"], sources=srcs(b["sources"]))
-        nb["arrays"] = [dict(a, md=None if a["md"] in dead else a["md"], sources=lst(a["sources"]))
+        nb["arrays"] = [dict(a, md=None if a["md"] in dead else a["md"], sources=lst(a["sources"]),
+                             dimlinks=["NOTARGET" if x in dead else x for x in a["dimlinks"]])
                         for a in b["arrays"] if a["id"] not in dead]
+        nb["frames"] = [dict(d, md=None if d["md"] in dead else d["md"])
+                        for d in b["frames"] if d["id"] not in dead]
         nb["tags"] = [dict(t, md=None if t["md"] in dead else t["md"], refs=lst(t["refs"]),
                            sources=lst(t["sources"]),
                            feats=["NODATA" if x in dead else x for x in t["feats"]])
@@ -178,6 +209,7 @@ def _strip(pic, dead):
                             pos=None if m["pos"] in dead else m["pos"], ext=None if m["ext"] in dead else m["ext"],
                             refs=lst(m["refs"])) for m in b["mtags"] if m["id"] not in dead]
         nb["groups"] = [dict(g, md=None if g["md"] in dead else g["md"], das=lst(g["das"]), tags=lst(g["tags"]), mtags=lst(g["mtags"]),
+                             frames=lst(g["frames"]),
                              sources=lst(g["sources"])) for g in b["groups"] if g["id"] not in dead]
         out["blocks"].append(nb)
     return out
@@ -211,7 +243,7 @@ def _owned(pic, eid):
         whole = b["id"] == eid
         if whole:
             dead.add(b["id"])
-        for k in ("arrays", "tags", "mtags", "groups"):
+        for k in ("arrays", "frames", "tags", "mtags", "groups"):
             for e in b[k]:
                 if whole or e["id"] == eid:
                     dead.add(e["id"])
@@ -230,7 +262,7 @@ def _targets(E):
         ("b1.s1", lambda: E["b1.s"].sources), ("b1.s2", lambda: E["b1.s1"].sources),
         ("sec", lambda: f.sections), ("sub", lambda: E["sec"].sections), ("subsub", lambda: E["sub"].sections),
         ("b1.blk", lambda: f.blocks), ("b2.a1", lambda: E["b2.blk"].data_arrays),
-        ("bare", lambda: f.blocks), ("othersec", lambda: f.sections),
+        ("bare", lambda: f.blocks), ("othersec", lambda: f.sections), ("b1.fr", lambda: b1.data_frames),
     ]
 
 
@@ -239,7 +271,7 @@ def _targets(E):
 # ---------------------------------------------------------------------------
 def _ob_delete(ti: int) -> bool:
     """
-    pre: 0 <= ti < 15
+    pre: 0 <= ti < 16
     post: __return__
     """
     how = PART
@@ -269,7 +301,7 @@ def _ob_delete(ti: int) -> bool:
 # ---------------------------------------------------------------------------
 def _ob_unlink(li: int, by: int) -> bool:
     """
-    pre: 0 <= li < 17 and 0 <= by < 3
+    pre: 0 <= li < 19 and 0 <= by < 3
     post: __return__
     """
     E = _fixture()
@@ -284,6 +316,7 @@ def _ob_unlink(li: int, by: int) -> bool:
         ("md.blk", None, E["b1.blk"]), ("md.a1", None, E["b1.a1"]), ("md.s1", None, E["b1.s1"]),
         ("md.tag", None, E["b1.tag"]), ("md.s2", None, E["b1.s2"]), ("md.empty", None, E["b1.empty"]),
         ("md.mt", None, E["b1.mt"]), ("md.grp", None, E["b1.grp"]), ("md.bare", None, E["bare"]),
+        ("md.fr", None, E["b1.fr"]), ("grp.frames", lambda: E["b1.grp"].data_frames, E["b1.fr"]),
     ]
     name, cont, item = _pick(links, li)
     if cont is None:
@@ -314,7 +347,7 @@ def _clear_md(pic, owner):
     for b in p["blocks"]:
         if b["id"] == owner:
             b["md"] = None
-        for k in ("arrays", "tags", "mtags", "groups"):
+        for k in ("arrays", "frames", "tags", "mtags", "groups"):
             for e in b[k]:
                 if e["id"] == owner:
                     e["md"] = None
@@ -328,7 +361,8 @@ def _remove_link(pic, name, target):
     b = p["blocks"][0]
     field = {"grp.das": ("groups", "das"), "grp.tags": ("groups", "tags"), "grp.mtags": ("groups", "mtags"),
              "grp.sources": ("groups", "sources"), "tag.refs": ("tags", "refs"), "tag.sources": ("tags", "sources"),
-             "mt.refs": ("mtags", "refs"), "a1.sources": ("arrays", "sources")}[name]
+             "mt.refs": ("mtags", "refs"), "a1.sources": ("arrays", "sources"),
+             "grp.frames": ("groups", "frames")}[name]
     ent = b[field[0]][0]
     ent[field[1]] = [x for x in ent[field[1]] if x != target]
     return p
